@@ -354,3 +354,46 @@ def r7_index_loops(ctx):
 
 
 RULES = [r1_reuse_summary, r2_renaming, r3_callsites, r4_order, r5_td_exec, r6_join_ctx, r7_index_loops]
+
+
+def r8_parallel_wiring(ctx):
+    ctx.rule("C10.r8", "top-down call site: formals receive the actuals SIMULTANEOUSLY - unify(ctx, formal_i, actual_i) straight from the "
+             "call's arguments is only sound through fresh intermediates (caller and callee may share names, e.g. g(a,b) called as g(b,a))", floor=1)
+    fs = [f for f in ctx.db.fns(BU, cpk=TDT, name="exec") if "callsite" in f["psig"]]
+    if not ctx.need(fs, "td_summ_abs_transformer::exec(callsite)"):
+        return
+    for fn in fs:
+        body = fn["body"]
+        d = local_decls(body)
+        n = 0
+        for l in walk(body):
+            if l.get("k") not in ("for", "rangefor", "while"):
+                continue
+            for u in walk(l.get("b")):
+                if not (is_call(u, name="unify") and len(u.get("a", [])) == 3):
+                    continue
+                dst, srcv = strip(u["a"][1]), strip(u["a"][2])
+                # the unification that reads an ACTUAL (cs.get_arg_name(i) / cs.get_args()[i], directly or through a local reference)
+                rs = resolve_local(body, srcv, d)
+                reads_actual = any(is_call(x, name=("get_arg_name", "get_args")) for x in walk(rs)) or \
+                    any(is_call(x, name=("get_arg_name", "get_args")) for x in walk(srcv))
+                if not reads_actual:
+                    continue
+                n += 1
+                # destination must be a fresh variable: a local constructed from a variable-factory call
+                rd = d.get(dst.get("id")) if isinstance(dst, dict) and dst.get("k") == "ref" and dst.get("rk") == "local" else None
+                fresh = rd is not None and any(is_call(x, name="get") and any(is_call(y, name="get_var_factory") or
+                                                                             (y.get("k") == "ref" and "fac" in (y.get("n") or "")) for y in walk(x))
+                                               for x in walk(rd.get("i")))
+                if fresh:
+                    ctx.ok("actual copied into a fresh variable first", fn, u)
+                else:
+                    ctx.bad("td_summ_abs_transformer::exec assigns `%s := %s` (formal := actual) one pair after the other in the same "
+                            "state: when a formal also occurs among the actuals (g(a_in, b_in) called as g(b_in, a_in)) a later pair "
+                            "reads the overwritten value and the stored calling context is wrong (a_in = b_in = 2 instead of 2, 1)" %
+                            (src(dst), src(srcv)), fn, u, sig="sequential-unify:td_summ")
+        if n == 0:
+            ctx.undecided("the unification of actuals in td_summ_abs_transformer::exec was not found", fn, body)
+
+
+RULES += [r8_parallel_wiring]
